@@ -132,7 +132,7 @@ class Monitor(object):
         if op[0] == 'finish' and any(x.startswith('ERaise') for x in effs):
             return 'an exception escaped from finish() of a listener'
         if self.w.discard_log_mismatch:
-            return 'number of error-level log lines differs from the number of discarded events'
+            return 'number of error-level log lines differs from the number of discarded events plus write errors'
         # ---- FIFO: a dispatch pass sends a prefix of the queue, in queue order
         if op[0] in ('dispatch', 'transition'):
             pi = op[1]
@@ -282,11 +282,12 @@ def _run(chk, wd, proved):
     alpha.append(['feed', 0, 0, b'garbage'])
     alpha.append(['finish', 0, 0, b'', B])
     alpha.append(['dispatch', 0, [[['again'], ['again']]]])
+    alpha.append(['dispatch', 0, [[['err'], ['room', BIG]], [['room', BIG], ['err']]]])   # write error: logged, event kept
     depth = 3
     for cfgs in grid:
         setup = ready_setup(cfgs)
         for seq in itertools.product(alpha, repeat=depth):
-            if quick and rng.random() < 0.93:
+            if quick and rng.random() < 0.945:
                 continue
             if not quick and (cfgs[0][1] in (0, 3) and rng.random() < 0.7 or rng.random() < 0.5):
                 continue
@@ -332,7 +333,7 @@ def _run(chk, wd, proved):
                                                         b'RESULT 4\nFAILREADY\n', b'garbage', b'RESULT x\n', b'RESULT 2\n',
                                                         b'OK', b'!X', b'RESULT 2\n!X', b'RESULT 0\n', b''])])
             elif r < 0.72:
-                wss = [[rng.choice([B, B, B, ['again'], ['epipe']]) for _ in range(cfgs[pi][2])] for _ in range(4)]
+                wss = [[rng.choice([B, B, B, B, ['again'], ['epipe'], ['err']]) for _ in range(cfgs[pi][2])] for _ in range(4)]
                 ops.append([rng.choice(['transition', 'transition', 'dispatch']), pi, wss])
             elif r < 0.78:
                 ops.append(['writable', pi, i, rng.choice([B, B, ['again'], ['epipe']])])
